@@ -23,6 +23,23 @@ THEOREMS = [
     "bc_getRandom_zero_draw",
     "bc_getRandom_positive",
     "bc_getRandom_zero_weight_witness",
+    # (i)/(ii) algebraic core on the segment abstraction
+    "rawMult_eq",
+    "rvb_detailed_balance",
+    "occupied_of_legal",
+    "acceptProb_zero_of_inner_zero",
+    "exP_admissible",
+    "inverted_ratio_breaks_balance",
+    # (iii) the move relation
+    "isRvbMove_sound",
+    "rvbMove_consistent",
+    "rvbMove_legal",
+    "rvbMove_count",
+    "rvbMove_state",
+    "rvbMove_outside_untouched",
+    "rvbMove_inside_flipped",
+    "rvbMove_rebond_target",
+    "ex_isRvbMove",
 ]
 
 RULE = ("helpers: remove_doubles on all sorted lists over {0,1,2} up to length 6 + random sorted/unsorted lists; "
